@@ -175,7 +175,12 @@ func run(c Case, rec *h.Rec) {
 		rec.Failf("output ends with the EOF marker: %v, closed without error: %v", bz.HasMarker(out), closedOK)
 		return
 	}
-	has, herr := bgzf.HasEOF(bytes.NewReader(out))
+	probe := bytes.NewReader(out)
+	if len(out) > 0 {
+		// HasEOF takes an io.ReaderAt: where the caller has read to does not matter
+		probe.Seek(int64(len(out))*int64(c.S.Level+2)/13, 0)
+	}
+	has, herr := bgzf.HasEOF(probe)
 	if has != closedOK || (closedOK && herr != nil) {
 		rec.Failf("HasEOF = (%v,%v), closed without error: %v", has, herr, closedOK)
 		return
